@@ -267,6 +267,65 @@ mod issuer {
     }
 }
 
+mod vissuer {
+    //! An issuer in the style of ERC-3643 `isClaimValid`: it ANSWERS (here: always "no") instead of trapping. For the
+    //! library a claim is confirmed only by a call that returns nothing; an answer, whatever it says, confirms nothing.
+    #![allow(unused_imports, dead_code)]
+    use soroban_sdk::{contract, contractimpl, panic_with_error, Address, Bytes, Env};
+    use stellar_tokens::rwa::{
+        claim_issuer::{self as ci, ClaimIssuer, SignatureVerifier},
+        identity_claims::ClaimsError,
+    };
+
+    pub const ED25519: u32 = 101;
+    pub const SECP256K1: u32 = 102;
+    pub const SECP256R1: u32 = 103;
+
+    #[contract]
+    pub struct VerdictIssuer;
+
+    fn common(e: &Env, public_key: &Bytes, scheme: u32, identity: &Address, claim_topic: u32, claim_data: &Bytes) {
+        if !ci::is_key_allowed_for_topic(e, public_key, scheme, claim_topic) {
+            panic_with_error!(e, ClaimsError::ClaimNotValid)
+        }
+        if ci::is_claim_expired(e, claim_data) {
+            panic_with_error!(e, ClaimsError::ClaimNotValid)
+        }
+        if ci::is_claim_revoked(e, identity, claim_topic, claim_data) {
+            panic_with_error!(e, ClaimsError::ClaimNotValid)
+        }
+    }
+
+    #[contractimpl]
+    impl VerdictIssuer {
+        pub fn is_claim_valid(_e: &Env, _identity: Address, _claim_topic: u32, _scheme: u32, _sig_data: Bytes, _claim_data: Bytes) -> bool {
+            false
+        }
+    }
+
+    #[contractimpl]
+    impl VerdictIssuer {
+        pub fn allow_key(e: &Env, public_key: Bytes, registry: Address, scheme: u32, claim_topic: u32) {
+            ci::allow_key(e, &public_key, &registry, scheme, claim_topic)
+        }
+        pub fn remove_key(e: &Env, public_key: Bytes, registry: Address, scheme: u32, claim_topic: u32) {
+            ci::remove_key(e, &public_key, &registry, scheme, claim_topic)
+        }
+        pub fn set_claim_revoked(e: &Env, identity: Address, claim_topic: u32, claim_data: Bytes, revoked: bool) {
+            ci::set_claim_revoked(e, &identity, claim_topic, &claim_data, revoked)
+        }
+        pub fn invalidate_claim_signatures(e: &Env, identity: Address, claim_topic: u32) {
+            ci::invalidate_claim_signatures(e, &identity, claim_topic)
+        }
+        pub fn get_current_nonce_for(e: &Env, identity: Address, claim_topic: u32) -> u32 {
+            ci::get_current_nonce_for(e, &identity, claim_topic)
+        }
+        pub fn is_key_allowed_for_topic(e: &Env, public_key: Bytes, scheme: u32, claim_topic: u32) -> bool {
+            ci::is_key_allowed_for_topic(e, &public_key, scheme, claim_topic)
+        }
+    }
+}
+
 // ---------------------------------------------------------------------------------------------
 // universe and key material
 // ---------------------------------------------------------------------------------------------
@@ -400,6 +459,8 @@ struct Sys {
     presetk: Vec<String>,
     keys0: Vec<Value>, // <<i, k, t, reg>> allowed during set-up (reported in the reset event)
     op_addr: Address,
+    /// regime: the issuer of this name answers is_claim_valid with a value instead of trapping ("" = none)
+    verdict: String,
 }
 
 struct Made {
@@ -430,10 +491,15 @@ impl Sys {
         names.insert("verifier", e.register(verifier::Verifier, (irs.clone(), reg_a.clone())));
         names.insert("ida", e.register(ident::Identity, ()));
         names.insert("idb", e.register(rogue::Rogue, ()));
+        let verdict = cfg.get("verdict").and_then(|v| v.as_str()).unwrap_or("").to_string();
         for i in ISSUERS {
-            names.insert(i, e.register(issuer::Issuer, ()));
+            if i == verdict {
+                names.insert(i, e.register(vissuer::VerdictIssuer, ()));
+            } else {
+                names.insert(i, e.register(issuer::Issuer, ()));
+            }
         }
-        let mut sys = Sys { e, names, rot, presetk, keys0: vec![], op_addr };
+        let mut sys = Sys { e, names, rot, presetk, keys0: vec![], op_addr, verdict };
         sys.setup();
         sys
     }
@@ -702,7 +768,7 @@ impl Sys {
     }
 
     fn reset_event(&self) -> Value {
-        json!({"op": {"op": "reset", "presetk": self.presetk, "rot": self.rot,
+        json!({"op": {"op": "reset", "presetk": self.presetk, "rot": self.rot, "verdict": self.verdict,
                       "ident": {"a": "ida", "b": "idb", "c": "none"}, "lib": ["ida"], "keys": self.keys0},
                "now": 0, "res": "ok", "err": 0, "obs": self.obs()})
     }
@@ -741,7 +807,8 @@ fn main() {
                     1 | 2 => vec!["k1"],
                     _ => vec!["k1", "k2", "k3"],
                 };
-                let mut sys = Sys::new(&json!({"rot": (run + seed as usize) % 3, "presetk": presetk}));
+                let verdict = if run % 4 == 3 { "i2" } else { "" };
+                let mut sys = Sys::new(&json!({"rot": (run + seed as usize) % 3, "presetk": presetk, "verdict": verdict}));
                 t.reset(sys.reset_event());
                 // untils used so far per slot, so that revocations can aim at existing claims
                 let mut untils: std::collections::BTreeMap<(String, String, String), i64> = Default::default();
@@ -830,6 +897,8 @@ fn drive_op(r: &mut StdRng, sys: &Sys, step: usize, untils: &mut std::collection
             } else {
                 *pick(r, &STATIC_DEFECTS)
             };
+            // (whatever an answering issuer is asked about, it confirms nothing)
+            let def = if i == sys.verdict { "verdict" } else { def };
             // expiry: just ahead (so that ticks cross it), far ahead, exactly now, already past
             let until = if r.gen_ratio(1, 10) {
                 // the ends of the u64 clock
